@@ -95,6 +95,10 @@ async def input_object_coercer(
 
     input_fields = input_object_type.input_fields
 
+    for field_name in field_nodes:
+        if field_name not in input_fields:
+            return CoercionResult(value=UNDEFINED_VALUE)
+
     results = await asyncio.gather(
         *[
             input_field_value_coercer(
